@@ -323,9 +323,9 @@ P("C16", "proof", "Lean 4 theorems (same-encoding clauses; Windows->Unix structu
   "either encoding, no `:`), the Windows conversion parses to exactly the same sequence of component kinds and names "
   "and is prefix-free (conv_u2w_portable); the round trips Unix->Windows->Unix and Windows->Unix->Windows return an "
   "equal path (roundtrip_u_w_u, roundtrip_w_u_w), the latter for prefix-free Windows paths; both rest on the append "
-  "lemma for prefix-free Windows buffers (win_push_comps_pf). Windows -> Unix for paths WITH a complete non-verbatim prefix: the prefix is dropped, a disk-prefixed path keeps exactly the components after the prefix (rooted iff it had a root), a device-namespace / UNC-prefixed path becomes rooted and keeps the components after the prefix (C16c.conv_w2u_prefixed). Checked conversions: a successful checked conversion returns exactly the unchecked conversion (C16d.conv_checked_ok_eq_unchecked, both directions, all inputs); the same-encoding one succeeds exactly on valid paths with the bytes unchanged (conv_checked_same_valid); the conversion fails as soon as the checked push of some source name is rejected (conv_checked_fails_on_name), in particular whenever a source name contains a byte the target forbids that is not itself a target separator (conv_checked_fails_forbidden, via push_checked_rejects_forbidden and the byte-conservation theorem of C03; the separator case is known finding K4). A successful checked conversion is valid in the target and keeps kinds and names (Props/C16e): Unix->Windows for every source none of whose names contains `\\` (K4 excluded) — result prefix-free, same component sequence, is_valid (conv_checked_u2w_valid); Windows->Unix for every source that does not start like a prefix (conv_checked_w2u_valid) and for every source with a complete non-verbatim prefix (conv_checked_w2u_prefixed_valid: prefix dropped, rooted unless it was a disk, valid).",
-  "Partial: the checked 'valid in target, same kinds and names' clause is not proved for verbatim-prefixed or incompletely prefixed Windows "
-  "sources; it is false at known finding K4 (conv_checked_K4_witness: a Unix name "
+  "lemma for prefix-free Windows buffers (win_push_comps_pf). Windows -> Unix for paths WITH a complete non-verbatim prefix: the prefix is dropped, a disk-prefixed path keeps exactly the components after the prefix (rooted iff it had a root), a device-namespace / UNC-prefixed path becomes rooted and keeps the components after the prefix (C16c.conv_w2u_prefixed). Checked conversions: a successful checked conversion returns exactly the unchecked conversion (C16d.conv_checked_ok_eq_unchecked, both directions, all inputs); the same-encoding one succeeds exactly on valid paths with the bytes unchanged (conv_checked_same_valid); the conversion fails as soon as the checked push of some source name is rejected (conv_checked_fails_on_name), in particular whenever a source name contains a byte the target forbids that is not itself a target separator (conv_checked_fails_forbidden, via push_checked_rejects_forbidden and the byte-conservation theorem of C03; the separator case is known finding K4). A successful checked conversion is valid in the target and keeps kinds and names (Props/C16e): Unix->Windows for every source none of whose names contains `\\` (K4 excluded) — result prefix-free, same component sequence, is_valid (conv_checked_u2w_valid); Windows->Unix for every source that does not start like a prefix (conv_checked_w2u_valid) and for every source with a complete non-verbatim prefix (conv_checked_w2u_prefixed_valid: prefix dropped, rooted unless it was a disk, valid). Complete VERBATIM prefixes (Props/C16f): the prefix is dropped and the Unix result is rooted with exactly the components after the prefix (conv_w2u_verbatim), and a successful checked conversion is that result and is valid (conv_checked_w2u_verbatim_valid) — for every spelling of the marker; under the exact `\\\\?\\` marker for rests without `/` and without `.` segments (a name containing `/` becomes two Unix components, a kept `.` vanishes on the Unix side), and with nothing or a separator after a verbatim disk.",
+  "Partial: the checked 'valid in target, same kinds and names' clause is not proved for incompletely prefixed Windows "
+  "sources, for `\\\\?\\C:x` (a name glued to a verbatim disk) and for exact-marker verbatim paths with `/` in a name or interior `.` components; it is false at known finding K4 (conv_checked_K4_witness: a Unix name "
   "containing `\\` becomes two Windows components). The oracle decides all of them on every run in all four "
   "directions (forbidden-byte alphabet, prefix seeds), K4 set aside by a narrow class predicate. Typed / platform / "
   "UTF-8 shortcuts (unchecked, checked, owned, same-encoding): oracle. Model=code by differential testing.",
@@ -334,8 +334,9 @@ P("C16", "proof", "Lean 4 theorems (same-encoding clauses; Windows->Unix structu
             "TP.C16b.win_push_comps_pf", "TP.C16b.conv_u2w_portable", "TP.C16b.roundtrip_u_w_u", "TP.C16b.roundtrip_w_u_w",
             "TP.C16c.conv_w2u_prefixed", "TP.C16c.convFold_list",
             "TP.C16d.conv_checked_ok_eq_unchecked", "TP.C16d.conv_checked_same_valid", "TP.C16d.conv_checked_fails_on_name", "TP.C16d.conv_checked_fails_forbidden", "TP.C16d.push_checked_rejects_forbidden",
-            "TP.C16e.conv_checked_u2w_valid", "TP.C16e.conv_checked_w2u_valid", "TP.C16e.conv_checked_w2u_prefixed_valid"],
-  modules=["TypedPathVerif.Props.C16b", "TypedPathVerif.Props.C16c", "TypedPathVerif.Props.C16d", "TypedPathVerif.Props.C16e"],
+            "TP.C16e.conv_checked_u2w_valid", "TP.C16e.conv_checked_w2u_valid", "TP.C16e.conv_checked_w2u_prefixed_valid",
+            "TP.C16f.conv_w2u_verbatim", "TP.C16f.conv_checked_w2u_verbatim_valid"],
+  modules=["TypedPathVerif.Props.C16b", "TypedPathVerif.Props.C16c", "TypedPathVerif.Props.C16d", "TypedPathVerif.Props.C16e", "TypedPathVerif.Props.C16f"],
   rule=NONTRIV + "strings over {\\ / : . a}, forbidden-byte alphabet, prefix seeds; non-trivial = prefix or >= 2 components", design_ref="§5 C16")
 
 P("C17", "proof", "tables regenerated from the source + Lean 4 theorems (decide over the whole tables, validity lemmas) + correspondence",
